@@ -350,8 +350,14 @@ impl Database {
             let runner = QueryRunner::new(child, logger.clone());
             let result_guard = runner.prepare_and_run(&sql).map_err(box_err)?;
 
+            #[cfg(feature = "verif")]
+            crate::verif::sched::yield_point(3);
             logger.log_commit().map_err(box_err)?;
+            #[cfg(feature = "verif")]
+            crate::verif::sched::yield_point(4);
             tx_ctx.commit_transaction().map_err(box_err)?;
+            #[cfg(feature = "verif")]
+            crate::verif::sched::yield_point(5);
             logger.log_end().map_err(box_err)?;
 
             Ok(result_guard)
